@@ -194,6 +194,10 @@ func (fr *frame) fmtArg(pc fmtPiece, arg value, lenient bool) value {
 	}
 	switch x := v.(type) {
 	case symInt:
+		if lenient {
+			// error texts are never inspected: do not materialise digits
+			return "<int>"
+		}
 		switch pc.verb {
 		case 'd', 'v':
 			if pc.spec == "" {
